@@ -72,7 +72,8 @@ CFG = dict(
     assumptions=["single-threaded use (concurrency is C13)",
                  "Go map iteration / reflection behave per the language spec"],
     manifest=dict(
-        text="Lean 4 theorems by induction over ARBITRARY histories of parameter sets, re-wirings (scalar and array ports) and reads on any "
+        text="REGENERATED TIE (engine F): the decision list of Struct.Outdated() and the statement sequences of process/Value/State/updateUsedDependencyVersions are re-extracted from nodes/struct_node.go on every run and outdated_from_source proves the model's `outdated` equal to their interpretation. "
+             "Lean 4 theorems by induction over ARBITRARY histories of parameter sets, re-wirings (scalar and array ports) and reads on any "
              "graph that stays acyclic (the ranking may change over the history), for every value type and EVERY processor function, "
              "modelled as a deterministic pull STRATEGY over its wired inputs (SNode.next: any pull order, early return on nil ports, decisions on "
              "values read so far, skipping; fn gets `none` for an unread input; the from-scratch evaluation follows the same strategy): reachable_inv (ghost-free invariant), read_fresh / processed_is_fresh (the value Value() returns is the "
@@ -98,6 +99,6 @@ CFG = dict(
              "graph is acyclic after every call (the Go API has no cycle check). 'Changed' in exec_only_if_changed means 'was written' (a Set "
              "with the same value or a re-wiring to the same source counts). Not modelled: Process() errors, Alert subscriptions. The sort "
              "inside Dependencies() is probed by the deporder oracle, not proved.",
-        technique="Lean 4 proof (inductive invariant over operation histories, refinement to from-scratch evaluation, closed counter-witness "
+        technique="Lean 4 proof (Outdated() skeleton regenerated from source and proved equal to the model; inductive invariant over operation histories, refinement to from-scratch evaluation, closed counter-witness "
                   "for skipping processors) + exact per-operation state correspondence"),
 )
